@@ -34,7 +34,7 @@ func (h recHandler) WithAttrs([]slog.Attr) slog.Handler       { return h }
 func (h recHandler) WithGroup(string) slog.Handler            { return h }
 func (h recHandler) Handle(ctx context.Context, r slog.Record) error {
 	c := &captured{stats: map[string]slog.Value{}}
-	_ = capHandler{c}.Handle(ctx, r)
+	_ = capHandler{c: c, all: true}.Handle(ctx, r)
 	h.mu.Lock()
 	*h.recs = append(*h.recs, c)
 	h.mu.Unlock()
